@@ -10,6 +10,10 @@
 (*   [t |-> "net",  ip, mask, calls: <<[fam, r, probes: <<[x, pc, nc]>>]>>]   *)
 (*   [t |-> "na",   kind, ip, zone, port, r]                                  *)
 (*   [t |-> "sort", in, o4, o6]                                               *)
+(*   [t |-> "globals", vals]    what the standard library's exported net.IP   *)
+(*                              variables hold at that point of the run; some *)
+(*                              of the inputs above ARE those variables,      *)
+(*                              logged with the value they are declared with  *)
 EXTENDS AddrConv, PreferSort, Json
 
 Trace == ndJsonDeserialize("conv_trace.ndjson")
@@ -33,12 +37,17 @@ NetOK == \A k \in DOMAIN Ev.calls :
 NaOK == AddrPortMeets(Ev.kind, Ev.ip, NetAddrToAddrPort(Ev.kind, Ev.ip, Ev.zone, Ev.port), Ev.r)
 SortOK == Ev.o4 = Sorted("v4", Ev.in) /\ Ev.o6 = Sorted("v6", Ev.in)
 
+(* No hidden state: the std globals still hold their declared bytes.          *)
+GlobalsOK == /\ DOMAIN Ev.vals = StdGlobalNames
+             /\ \A n \in StdGlobalNames : Ev.vals[n] = StdGlobals[n]
+
 TInit == l = 1
 TNext == /\ l <= Len(Trace)
          /\ CASE Ev.t = "ip" -> IpOK
               [] Ev.t = "net" -> NetOK
               [] Ev.t = "na" -> NaOK
               [] Ev.t = "sort" -> SortOK
+              [] Ev.t = "globals" -> GlobalsOK
               [] OTHER -> FALSE
          /\ l' = l + 1
 TSpec == TInit /\ [][TNext]_l
